@@ -303,7 +303,7 @@ func TestConnector(t *testing.T) {
 			pin.Origins = append(pin.Origins, gen.Origin().Draw(t, "origin"))
 		}
 		var from cid.Cid
-		if rapid.IntRange(0, 2).Draw(t, "update") == 0 && pin.MaxDepth != 0 {
+		if rapid.IntRange(0, 2).Draw(t, "update") == 0 {
 			from = gen.Cids[3+rapid.IntRange(0, 1).Draw(t, "from")]
 			pin.PinUpdate = from
 		}
@@ -411,7 +411,12 @@ func TestConnector(t *testing.T) {
 				t.Fatalf("the update source entry changed from %q to %q\ncase: %s", priorFrom, afterFrom, desc)
 			}
 			conflict := want == "direct" && prior == "recursive"
-			usesUpdate := from.Defined() && priorFrom == "recursive" && prior != want
+			// the statement says a pin update is used *only* when the source is
+			// recursively pinned, not that it must be used then (for a direct
+			// pin the connector looks the source up as a direct pin, does not
+			// find it, and adds normally): which path ran is taken from the
+			// requests the daemon saw
+			usesUpdate := updates > 0
 			noFault := beh["pin/ls"] == "" && cancelAfter == 0 && ((usesUpdate && beh["pin/update"] == "") || (!usesUpdate && (beh["pin/add"] == "" || beh["pin/add"] == "slow-progress")))
 			if noFault && !conflict && err != nil {
 				t.Fatalf("no fault injected and a compatible prior state, but Pin failed: %v\ncase: %s\nrequests: %v", err, desc, reqs)
